@@ -55,8 +55,6 @@ fn f5_prio3_256_verifier_shares() {
     let many = vec![share; 256];
     assert!(vdaf.verifier_shares_to_message(b"ctx", &(), many).is_err());
 }
-use prio::vdaf::prio3::Prio3;
-use prio::vdaf::Client;
 #[test]
 fn f4_histogram_bucket_out_of_range() {
     // C16: a measurement outside the configured range must be an error, not a panic
